@@ -57,6 +57,14 @@ func wellKnown() map[string]*descriptorpb.FileDescriptorProto {
 	for i := 0; i < imps.Len(); i++ {
 		add(imps.Get(i).FileDescriptor)
 	}
+	// a file that only re-exports the option and well-known files (`import public`)
+	pre := &descriptorpb.FileDescriptorProto{Name: proto.String(PreludeProto), Package: proto.String("prelude"), Syntax: proto.String("proto3"),
+		Options: &descriptorpb.FileOptions{GoPackage: proto.String("example.com/gen/prelude;prelude")}}
+	for i, d := range []string{AnnotationsProto, HeadersProto, TimestampProto, StructProto, ValidateProto} {
+		pre.Dependency = append(pre.Dependency, d)
+		pre.PublicDependency = append(pre.PublicDependency, int32(i))
+	}
+	out[PreludeProto] = pre
 	return out
 }
 
@@ -66,6 +74,7 @@ const (
 	TimestampProto   = "google/protobuf/timestamp.proto"
 	StructProto      = "google/protobuf/struct.proto"
 	ValidateProto    = "buf/validate/validate.proto"
+	PreludeProto     = "prelude/prelude.proto"
 )
 
 // ToCodeGenRequest converts the IR into the request protoc would send to a plugin.
@@ -171,6 +180,9 @@ func (f *File) toProto() (*descriptorpb.FileDescriptorProto, error) {
 		}
 	}
 	sortStrings(auto)
+	if f.ViaPrelude && len(auto) > 0 {
+		auto = []string{PreludeProto}
+	}
 	fd.Dependency = append(append([]string{}, f.Deps...), auto...)
 	return fd, nil
 }
@@ -458,6 +470,9 @@ func (r *Rules) toProto(f *Field) (*validate.FieldRules, error) {
 	fr := &validate.FieldRules{}
 	if r.Required {
 		fr.Required = proto.Bool(true)
+	}
+	if r.IgnoreIfZero {
+		fr.Ignore = validate.Ignore_IGNORE_IF_ZERO_VALUE.Enum()
 	}
 	elemKind := f.Kind
 	scalarTarget := fr
